@@ -10,9 +10,9 @@ CLAIMS = {
  "C01": ("Theorems (all tables, all byte strings): Scan meets the declarative ScanSpec (skip complete ignored lexemes, follow the automaton while a transition exists, return the last state's token with exactly that text, INVALID swallows the offending rune, EOF for ever) and ScanSpec determines the result; bisimilar automata give identical token streams. Generator: Lean model of the item-set construction tied to gocc by exact equality of every generated table; oracle = macro-expanded reference semantics (product walk + token streams). Known finding D1 (regdef sharing).",
          "The generator-vs-reference equivalence is checked per grammar by an executable product walk, not proved for all grammars (D1 makes the unrestricted statement false); reference needs acyclic definitions.",
          "Lean 4 proof (loop invariant, spec uniqueness, bisimulation) + exact table correspondence + reference-semantics oracle"),
- "C02": ("Verified validator: theorem C02_accept_sound — for any tables passing safe/safeEnds with a certificate, Parse accepting w implies w is a sentence, for every token sequence and fuel; the validator is run on every gocc-generated table of the run (certificate = model item sets), so soundness holds for all inputs of each visited grammar. Completeness and termination direction: Earley oracle on exhaustive short inputs and sampled sentences. Tables tied to the Lean LR(1) generator model by exact equality.",
-         "The 'sentence implies accept' and 'terminates' directions are decided by correspondence + Earley oracle, not yet by theorem; 'for all grammars' is covered by validating each visited grammar.",
-         "Lean 4 verified table validator (stack invariant carrying parse trees) + exact table correspondence + Earley oracle"),
+ "C02": ("Verified validators: theorems C02_accept_sound (tables passing safe/safeEnds: accept implies sentence) and C02_sentence_accepted (tables passing firstOk/complete: every sentence is accepted with enough fuel), together C02_accept_iff_sentence, for EVERY token sequence. Both validators are evaluated on every table gocc generates in the run (certificates = the model's LR(1) item sets and FIRST sets), so for each visited conflict-free grammar acceptance = membership for all inputs. Tables tied to the Lean LR(1) generator model by exact equality; Earley recogniser as an independent oracle; verdicts also checked on reused parser objects.",
+         "'For all grammars' is covered by validating each visited grammar, not by a theorem about the generator; termination on non-sentences is observed (watchdog + fuel), not proved.",
+         "Lean 4 verified table validators (soundness: stack invariant carrying parse trees; completeness: induction on derivations) + exact table correspondence + Earley oracle"),
  "C03": ("Theorems over validated tables, all inputs: the accepted result and the action-call log equal the post-order evaluation (evalT) of a well-formed parse tree whose yield is the input; a failing k-th action stops Parse with that action's error after exactly k calls and its log is the k-prefix of the failure-free run. Compiled parsers with logging actions tied to the model; table-free tree evaluator as oracle.",
          "Action texts are exercised through five harness shapes ($n, $Tn, $Context, X, default/empty); attribute aliasing through popN is outside the model.",
          "Lean 4 proof (same stack invariant, lock-step simulation) + compiled-parser correspondence + tree-evaluation oracle"),
@@ -22,24 +22,42 @@ CLAIMS = {
  "C05": ("Theorems (all action lists, all orders): fold result = shift if proposed else smallest production; order independent; no competition leaves the entry unchanged; setAction is that fold. Every entry of every generated table compared with the rule stated outright; run-level behaviour tied to the Parse model.",
          "Run-level corollary (verdict and reductions of the resolved machine) is by correspondence with the model running the same table.",
          "Lean 4 proof (fold invariant, permutation invariance) + per-entry oracle + correspondence"),
- "C06": ("Oracle-level: for conflict-free, error-free, productive grammars every rejected input is judged by an Earley recogniser on its prefixes (first non-viable token, token identity, expected list = viable continuations in type order, no reduction with the offending look-ahead). Parse model tied exactly to compiled parsers; tables tied to the generator model.",
-         "No theorem yet for the exact expected set (needs validator completeness/validity part); registered theorems are the soundness ones shared with C02.",
-         "correspondence + Earley prefix oracle (theorems: C02 soundness only)"),
+ "C06": ("Theorems shared with C02 (accept iff sentence on validated tables; FIRST certificate soundness). The exact-error-position / exact-expected-set clauses are decided at oracle level: for conflict-free, error-free, productive grammars every rejected input is judged by an Earley recogniser on its prefixes (first non-viable token, token identity, expected list = viable continuations in type order, no reduction with the offending look-ahead). Parse model tied exactly to compiled parsers; tables tied to the generator model.",
+         "No theorem yet for the exact expected set (needs the validity part of the validator: every item of a state valid for its viable prefix).",
+         "Lean 4 theorems on validated tables (accept iff sentence) + Earley prefix oracle for the error clauses"),
  "C07": ("Recovery model (Error/popNonRecoveryStates/firstRecoveryState/skip loop) tied exactly to compiled parsers on erroneous inputs; oracles: no panic/loop on conflict-free grammars, inertness against the error-free twin grammar, shifted tokens in input order at most once. Two genuine panics fixed (D7, D7b).",
          "recover = recoverSpec and termination are not yet theorems.",
          "correspondence with the Lean Parse/recover model + behavioural oracles"),
+ "C09": ("Termination and output completeness observed on the real binary: hostile spellings and action texts x ten flag sets (incl. -o below the working directory, -p), byte-level mutants incl. NUL/0xFF, 30 s limit per run; every status-0 run is checked for the complete file set and compiled by the Go compiler. Lean obligations registered are the termination facts that are proved: the generated Scan loop is well-founded, makes progress and reaches end of input; accepting runs are fuel-monotone. Defects D5 (gocc hangs) and D8 (uncompilable output with status 0) were found this way and fixed.",
+         "The generator's own loops are modelled with fuel: their termination is NOT a theorem; compilability is the Go compiler's verdict on sampled grammars.",
+         "timeout-guarded runs of the real binary + Go compiler; Lean: termination of the generated Scan loop only (partial)"),
  "C08": ("Theorems (all tables, bytes, call counts): every token's offset/line/column is the position rule applied to the runes before it, the cursor stays on rune boundaries, lexemes are adjacent and inside the input, literal = consumed bytes, progress, EOF sticky. Executable position/tiling oracle on compiled lexers' streams.",
          "TWF (Accept=-1 only for ignore states) is a hypothesis, true of emitted tables by construction of acttab.go.",
          "Lean 4 proof (loop invariant over the Scan model) + correspondence + position oracle"),
  "C10": ("Theorems: typeMap has INVALID at 0, end-of-input at 1, no duplicates, for every symbol table newSymbols/addTokens can build; lookups tokId/tokType are mutually inverse over the terminals and unknown names map to 0. Compiled TokMap lookups, lexer Accept values and parser columns compared with the model for lexer-only, parser-only and combined grammars incl. hostile spellings.",
          "Go map/slice lookups are modelled by List.idxOf / getElem; %q quoting round trip trusted.",
          "Lean 4 proof (NoDup invariant, inverse lookups) + compiled TokMap correspondence"),
+ "C11": ("Premise re-extracted on every run with go/ast + go/types: the list of map-range / go / select / time / rand / env sites of the generator equals the hand-reviewed list (expected/nondet_sites.json; each site: sorted afterwards, commutative-idempotent set operation, or not part of the generated packages). Theorem: the conflict fold is invariant under permutation of the items (C05_order_independent). Backstop: repeated runs with fresh hash seeds and GOMAXPROCS 1..16, byte comparison of generated .go files, status and conflict count.",
+         "The Go runtime is not modelled; a new nondeterminism site is reported as an unchecked premise (no-failing-input-found unless the repeated runs differ).",
+         "extracted-premise comparison + Lean order-independence theorem + repeated-run byte comparison"),
  "C12": ("Theorem: decoding the sparse -zip triples into a zero row gives back exactly the dense row, for every row. All subsets of the presentation flags on sample grammars: tables dumped from the compiled packages (after init()) identical, token streams/results/errors/positions identical.",
          "gob+gzip round trip assumed; debug output on stdout ignored.",
          "Lean 4 proof (zip round trip) + all-flag-subsets behavioural comparison"),
+ "C13": ("Lean model of gocc's hand-written scanner (every function of scanner.go) and theorems for every Unicode oracle: the (type, literal) token stream of a rendering is independent of the white-space/comment separators (C13_whitespace_invariant, C13_comment_is_whitespace), positions follow the layout; character literal value is spelling independent (C20_litToRune). Scanner model tied to the real scanner on respelled grammars and random byte strings; the real binary on four kinds of respelling must produce byte-identical packages.",
+         "ScansAs (a spelling scans as one token when followed by white space) is discharged for ASCII spellings; 'the generator is a function of the token stream' is checked behaviourally (byte-identical output), not proved.",
+         "Lean 4 proof over a scanner model + scanner correspondence + byte comparison of generated packages"),
+ "C14": ("Theorems (regenerated tables): gocc's own parser accepts exactly L(spec/gocc2.ebnf) and has no recovery state, so nothing is skipped (C15_accepts_iff_sentence, C15_no_recovery_states). The real binary on token-level mutants, undefined references, duplicated definitions, emptied alternatives and lexically broken files: every file that is ill-formed by the oracle (scanner error / ILLEGAL token / token sequence outside L(ebnf) by Earley / semantic by construction) must exit non-zero. Defects D6 and D10 found and fixed.",
+         "The semantic checks (duplicates, undefined symbols, empty alternatives) are judged by construction of the mutant, not by a Lean model of internal/ast.",
+         "Lean 4 theorems on regenerated front-end tables + mutation run of the real binary with an Earley/semantic oracle"),
+ "C15": ("Regenerated on every run: tables.go (dumped from the compiled current tree) and spec/gocc2.ebnf (independent reader) are translated to Lean data; the kernel evaluates both verified validators on them by `decide`: C15_accepts_iff_sentence — for ALL token sequences the front-end parser accepts iff the sequence is a sentence of the ebnf; production table = ebnf productions (head, length; bodies through the stack discipline). A changed table entry or production breaks a proof obligation; the check then searches (Earley vs real parser, one long-lived parser object) for a concrete failing input.",
+         "The front-end Parse loop is an older template than the modelled one: tied by the differential run (verdict and number of Scan calls).",
+         "Lean 4 kernel evaluation (decide) of verified validators on regenerated tables + differential search"),
  "C16": ("Theorems: Parse does not read the previous parser state (model shape), Reset restores all cursor fields so scanN after reset equals scanN of a new lexer. Histories of 2-5 inputs on ONE compiled parser object compared with fresh objects and the model; Scan/Reset/Scan sequences likewise.",
          "The parser theorem is immediate from the model's shape; its content is carried by the history correspondence.",
          "Lean 4 proof + history correspondence against fresh objects"),
+ "C17": ("Theorem: in an interleaving semantics where threads own private state and only read a shared store, every interleaving projects per thread to its solo run (C17_interleaving_projects, instance for lexers over shared tables). Premise re-extracted every run from the generated source (plain, -zip, debug): no assignment to package-level state outside init(). Backstop: N goroutines with own lexer+parser vs sequential results, also under the Go race detector.",
+         "The Go memory model and the race detector are trusted; the premise extraction is syntactic (go/ast).",
+         "Lean 4 interleaving theorem + extracted no-shared-writes premise + race-detector stress"),
  "C18": ("Theorems for all interval sequences: classes sorted/disjoint/non-empty, union exact, every added range a union of classes, at most one class per rune, Item.match all-or-nothing. Real AddRange tied to the model; executable partition oracle on its output.",
          "Structural-recursion model tied to the index loop by correspondence only.",
          "Lean 4 proof by induction over the class list + differential correspondence"),
